@@ -17,6 +17,7 @@ import (
 	"strings"
 	"time"
 
+	"github.com/vkd/goag/generator"
 	"verif/rt"
 )
 
@@ -149,7 +150,9 @@ func (e *jsonEnv) resolve(s *JS) *JS {
 	return s
 }
 
-var propNames = []string{"alpha", "beta", "count", "id", "items", "kind", "name", "note", "size", "tag", "user_id", "x-val", "when"}
+var propNames = []string{"alpha", "beta", "count", "id", "items", "kind", "name", "note", "size", "tag", "user_id", "x-val", "when",
+	// names the generated code has to quote: backslash, percent sign, double quote (453da41)
+	"win\\name", "per%cent", "q\"t"}
 
 // pickPrim picks a leaf kind; a plain integer sometimes carries one of the small/unsigned formats
 func pickPrim(rng *PRNG) *JS {
@@ -675,6 +678,12 @@ func (e *jsonEnv) genObjVal(rng *PRNG, s *JS, depth int) rt.Val {
 		v.X = [][2]json.RawMessage{}
 		for i := 0; i < n; i++ {
 			k := Pick(rng, []string{"extra", "x1", "we\"ird", "sla\\sh", "ключ", "new\nline", "z"})
+			if len(s.Props) > 0 && k == "z" {
+				// a key spelled like the Go field of a declared property (Name for name, UserID for
+				// user_id): still an additional property, not the declared one. No extra draw from the
+				// stream: the fixed witnesses of the recorded findings keep their values
+				k = generator.PublicFieldName(s.Props[(i+len(v.X))%len(s.Props)].Name)
+			}
 			if declared[k] {
 				continue
 			}
@@ -780,6 +789,11 @@ func (e *jsonEnv) genObjDoc(rng *PRNG, s *JS, depth int) map[string]any {
 		n := 1 + rng.Intn(2)
 		for i := 0; i < n; i++ {
 			k := Pick(rng, []string{"extra", "x1", "zz-unknown", "ключ"})
+			if len(s.Props) > 0 && k == "x1" && i == 1 && s.Props[0].Name != "kind" {
+				// (not for `kind`, the discriminator of the unions: encoding/json matches the probe
+				// struct's tag without regard to letter case, which the model does not follow)
+				k = generator.PublicFieldName(s.Props[0].Name)
+			}
 			if _, ok := out[k]; ok {
 				continue
 			}
